@@ -60,6 +60,7 @@ use std::time::{Duration, Instant};
 use base64::Engine as _;
 use bcder::decode::{Pos, Source};
 use bcder::encode::Values as _;
+use bcder::encode::PrimitiveContent as _;
 use bcder::Mode;
 use bytes::Bytes;
 use rayon::prelude::*;
@@ -304,6 +305,12 @@ struct Fixtures {
     roa_econtent: Vec<u8>,
     mft_econtent: Vec<u8>,
     aspa_econtent: Vec<u8>,
+    // parts of the E5-assembled RTAs
+    ca_cert_der: Vec<u8>,
+    ca_crl_der: Vec<u8>,
+    edge_ee_der: Vec<u8>,
+    att_single: Vec<u8>,
+    att_multi: Vec<u8>,
 }
 
 fn t0() -> Time { pki::time(pki::T0) }
@@ -346,6 +353,38 @@ fn e5_signed_object(signer: &PoolSigner, ct: &[u64], econtent: &[u8], ee_cert: &
         sig_alg: der::alg_rsa_encryption(),
         signature,
     })
+}
+
+const OID_CT_RTA: &[u64] = &[1, 2, 840, 113549, 1, 9, 16, 1, 36];
+
+fn rta_attrs(content: &[u8]) -> Vec<Vec<u8>> {
+    vec![
+        der::attr_content_type(OID_CT_RTA),
+        der::attr_signing_time(der::utctime(der::Civil { y: 2023, mo: 11, d: 14, h: 22, mi: 13, s: 20 })),
+        der::attr_message_digest(&signer::sha256(content)),
+    ]
+}
+
+/// A multi-signer RTA by the independent encoder. `attrs_tbs` replaces the
+/// signed attributes of the first signer (given in their to-be-signed SET form).
+fn e5_rta(signer: &PoolSigner, content: &[u8], certs: &[&[u8]], crls: &[&[u8]], signers: &[usize], real_sig: bool, attrs_tbs: Option<&[u8]>) -> Vec<u8> {
+    let infos: Vec<Vec<u8>> = signers.iter().enumerate().map(|(i, &k)| {
+        let tbs = match (i, attrs_tbs) { (0, Some(t)) => t.to_vec(), _ => der::signed_attrs_tbs(&rta_attrs(content)) };
+        let sig = if real_sig { signer.sign_raw(k, &tbs) } else { vec![0u8; 256] };
+        // on the wire the attributes are [0] IMPLICIT
+        let mut wire = tbs.clone();
+        if wire.first() == Some(&0x31) { wire[0] = 0xa0 }
+        der::seq(&[der::int_u(3), der::ctx(0, false, signer.ski(k).as_slice()), der::alg_sha256(false), wire, der::alg_rsa_encryption(), der::octets(&sig)])
+    }).collect();
+    let mut sd = vec![
+        der::int_u(3),
+        der::set_of(&[der::alg_sha256(false)]),
+        der::seq(&[der::oid(OID_CT_RTA), der::ctx(0, true, &der::octets(content))]),
+        der::ctx(0, true, &certs.concat()),
+    ];
+    if !crls.is_empty() { sd.push(der::ctx(1, true, &crls.concat())) }
+    sd.push(der::set_unsorted(&infos));
+    der::seq(&[der::oid(der::OID_SIGNED_DATA), der::ctx(0, true, &der::seq(&sd))])
 }
 
 fn sign_wrap(signer: &PoolSigner, key: usize, tbs: &[u8], real_sig: bool) -> Vec<u8> {
@@ -450,13 +489,23 @@ fn build_env() -> Env {
     let aspa = ab.finalize(sob(13, "obj.asa"), &signer, &Kid(1)).expect("aspa");
     seeds.push(Seed::new("fresh/obj.asa", Kind::Aspa, aspa.to_captured().as_slice().to_vec(), true));
 
-    //--- RTA: CA certificate + its CRL + detached EE, signed by the EE key
-    let rta_der = {
+    //--- RTAs (library builder). The attested resources are exactly those of the signing
+    // EE certificates, so that validation can run to completion:
+    //   obj.rta      EE + its CA certificate + the CA's CRL embedded, the TA supplied from outside
+    //   ee-only.rta  EE only, the CA supplied from outside
+    let attestation = |keys: &[usize], v4: &[(u128, u128)], v6: &[(u128, u128)], asn: &[(u128, u128)]| {
         let digest = DigestAlgorithm::default().digest(b"attested document");
         let mut att = rta::AttestationBuilder::new(DigestAlgorithm::default(), digest.into());
-        att.push_key(signer.public(2).key_identifier());
-        att.push_v4(IpBlock::from(Prefix::new(std::net::Ipv4Addr::new(10, 0, 0, 0), 24)));
-        let mut b = att.into_rta_builder();
+        for &k in keys { att.push_key(signer.public(k).key_identifier()) }
+        for b in pki::ip_blocks(32, v4).iter() { att.push_v4(b) }
+        for b in pki::ip_blocks(128, v6).iter() { att.push_v6(b) }
+        for b in pki::as_blocks(asn).iter() { att.push_as(b) }
+        att
+    };
+    let ee_v4 = [(0x0a00_0000u128, 0x0a00_01ffu128)];
+    let ee_v6 = [(0x2001_0db8u128 << 96, (0x2001_0db8u128 << 96) | ((1u128 << 80) - 1))];
+    let rta_der = {
+        let mut b = attestation(&[2], &ee_v4, &ee_v6, &[]).into_rta_builder();
         b.push_cert(Cert::decode(ee_der.as_slice()).unwrap());
         b.push_cert(Cert::decode(ca_der.as_slice()).unwrap());
         b.push_crl(Crl::decode(crl_der.as_slice()).unwrap());
@@ -464,6 +513,14 @@ fn build_env() -> Env {
         b.finalize().to_captured().as_slice().to_vec()
     };
     seeds.push(Seed::new("fresh/obj.rta", Kind::Rta, rta_der, true));
+    let rta_ee_only = {
+        let mut b = attestation(&[2], &ee_v4, &ee_v6, &[]).into_rta_builder();
+        b.push_cert(Cert::decode(ee_der.as_slice()).unwrap());
+        b.sign(&signer, &Kid(2), t0()).expect("rta sign");
+        b.finalize().to_captured().as_slice().to_vec()
+    };
+    seeds.push(Seed::new("fresh/ee-only.rta", Kind::Rta, rta_ee_only, true));
+    let att_single = attestation(&[2], &ee_v4, &ee_v6, &[]).into_attestation().encode_ref().to_captured(Mode::Der).as_slice().to_vec();
 
     //--- CSR, keys, TAL
     let csr = Csr::construct_rpki_ca(&signer, &Kid(3), &rsync("rsync://example.net/repo/ca3/"),
@@ -510,9 +567,10 @@ fn build_env() -> Env {
         &[der::MftEntry { name: b"obj.roa".to_vec(), hash_unused: 0, hash: vec![1; 32] },
           der::MftEntry { name: b"ca.crl".to_vec(), hash_unused: 0, hash: vec![2; 32] }]);
     let aspa_econtent = der::aspa_content(Some(1), 64496, &[64497, 64498, 65000]);
-    let fx = Fixtures {
+    let mut fx = Fixtures {
         ee_cert_der: ee_der.clone(), ee_inherit_der: ee_inh_der, ee_as_der, id_ee_der, id_tbs, sig_crl_tbs,
         prov_xml, roa_econtent, mft_econtent, aspa_econtent,
+        ca_cert_der: ca_der.clone(), ca_crl_der: crl_der.clone(), edge_ee_der: Vec::new(), att_single: att_single.clone(), att_multi: Vec::new(),
     };
     seeds.push(Seed::new("fresh/e5.roa", Kind::Roa, e5_signed_object(&signer, der::OID_CT_ROA, &fx.roa_econtent, &fx.ee_cert_der, 2, vec![], true), true));
     seeds.push(Seed::new("fresh/e5.mft", Kind::Mft, e5_signed_object(&signer, der::OID_CT_MANIFEST, &fx.mft_econtent, &fx.ee_inherit_der, 2, vec![], true), true));
@@ -564,19 +622,32 @@ fn build_env() -> Env {
     for p in [0u32, 6, 65535, 65536, 4294967295] { ab.add_provider(Asn::from_u32(p)).expect("provider") }
     let edge_aspa = ab.finalize(sob5(32, "edge.asa"), &signer, &Kid(5)).expect("edge aspa");
     seeds.push(Seed::new("fresh/edge.asa", Kind::Aspa, edge_aspa.to_captured().as_slice().to_vec(), true));
-    let edge_rta_der = {
+    // two signers under two different CAs (both supplied from outside); the attestation is
+    // the union of both EE certificates' resources
+    let multi_att = || {
         let digest = DigestAlgorithm::default().digest(b"attested document");
         let mut att = rta::AttestationBuilder::new(DigestAlgorithm::default(), digest.into());
+        att.push_key(signer.public(2).key_identifier());
         att.push_key(signer.public(6).key_identifier());
-        for b in pki::ip_blocks(32, &[(0, 0x00ff_ffff), (0xffff_ffff, 0xffff_ffff)]).iter() { att.push_v4(b) }
-        for b in pki::ip_blocks(128, &[(0, (1u128 << 112) - 1), (0xffffu128 << 112, u128::MAX)]).iter() { att.push_v6(b) }
+        for b in pki::ip_blocks(32, &[(0, 0x00ff_ffff), (0x0a00_0000, 0x0a00_01ff), (0xffff_ffff, 0xffff_ffff)]).iter() { att.push_v4(b) }
+        for b in pki::ip_blocks(128, &[(0, (1u128 << 112) - 1), (0x2001_0db8u128 << 96, (0x2001_0db8u128 << 96) | ((1u128 << 80) - 1)), (0xffffu128 << 112, u128::MAX)]).iter() { att.push_v6(b) }
         for b in pki::as_blocks(&[(0, 0), (5, 6), (4294967295, 4294967295)]).iter() { att.push_as(b) }
-        let mut b = att.into_rta_builder();
+        att
+    };
+    let edge_rta_der = {
+        let mut b = multi_att().into_rta_builder();
+        b.push_cert(Cert::decode(ee_der.as_slice()).unwrap());
         b.push_cert(Cert::decode(edge_ee_der.as_slice()).unwrap());
-        b.sign(&signer, &Kid(6), t0()).expect("edge rta sign");
+        b.sign(&signer, &Kid(2), t0()).expect("multi rta sign 1");
+        b.sign(&signer, &Kid(6), t0()).expect("multi rta sign 2");
         b.finalize().to_captured().as_slice().to_vec()
     };
-    seeds.push(Seed::new("fresh/edge.rta", Kind::Rta, edge_rta_der, true));
+    seeds.push(Seed::new("fresh/multi-signer.rta", Kind::Rta, edge_rta_der, true));
+    let att_multi = multi_att().into_attestation().encode_ref().to_captured(Mode::Der).as_slice().to_vec();
+
+    fx.edge_ee_der = edge_ee_der.clone();
+    fx.att_multi = att_multi;
+    seeds.push(Seed::new("fresh/e5-multi-signer.rta", Kind::Rta, e5_rta(&signer, &fx.att_multi, &[&fx.ee_cert_der, &fx.edge_ee_der], &[], &[2, 6], true, None), true));
 
     //--- text lists for the FromStr decoders
     seeds.push(Seed::new("fresh/as-list.txt", Kind::AsText, b"AS0, AS5-AS6, AS64496-AS64511, AS4294967295".to_vec(), true));
@@ -640,6 +711,11 @@ fn build_env() -> Env {
         RsSeed::new("rs/e5.asa#econtent", RsKind::AspaContent, fx.aspa_econtent.clone()),
         RsSeed::new("rs/edge-ca.cer#tbs", RsKind::CertTbs(4), tlv_child(&edge_ca_der, &[0]).to_vec()),
         RsSeed::new("rs/edge-ee.cer#tbs", RsKind::CertTbs(5), tlv_child(&edge_ee_der, &[0]).to_vec()),
+        RsSeed::new("rs/multi.rta#attestation", RsKind::RtaContent, fx.att_multi.clone()),
+        RsSeed::new("rs/ee-only.rta#ee-tbs", RsKind::RtaEeTbs, tlv_child(&ee_der, &[0]).to_vec()),
+        RsSeed::new("rs/obj.rta#ca-tbs", RsKind::RtaCaTbs, tlv_child(&ca_der, &[0]).to_vec()),
+        RsSeed::new("rs/obj.rta#crl-tbs", RsKind::RtaCrlTbs, tlv_child(&crl_der, &[0]).to_vec()),
+        RsSeed::new("rs/ee-only.rta#signed-attrs", RsKind::RtaAttrs, der::signed_attrs_tbs(&rta_attrs(&fx.att_single))),
     ];
     // the OID value menu: every OBJECT IDENTIFIER that occurs in any seed
     {
@@ -665,6 +741,9 @@ enum RsKind {
     /// the identity EE certificate inside a signed message
     SigIdTbs,
     RoaContent, MftContent, AspaContent,
+    /// parts of E5-assembled RTAs: the attestation (two signers), the EE / CA
+    /// certificate TBS, the CRL TBS, the signed attributes
+    RtaContent, RtaEeTbs, RtaCaTbs, RtaCrlTbs, RtaAttrs,
 }
 
 struct RsSeed { name: String, kind: RsKind, inner: Vec<u8>, tree: Tree }
@@ -682,6 +761,7 @@ impl RsSeed {
             RsKind::RoaContent => &[Ep::RoaS, Ep::RoaR],
             RsKind::MftContent => &[Ep::MftS, Ep::MftR],
             RsKind::AspaContent => &[Ep::AspaS, Ep::AspaR],
+            RsKind::RtaContent | RsKind::RtaEeTbs | RsKind::RtaCaTbs | RsKind::RtaCrlTbs | RsKind::RtaAttrs => &[Ep::RtaS, Ep::RtaR],
         }
     }
     /// Wraps the (mutated) inner part into the complete object; with
@@ -703,6 +783,11 @@ impl RsSeed {
             RsKind::RoaContent => e5_signed_object(s, der::OID_CT_ROA, inner, &env.fx.ee_cert_der, 2, vec![], real_sig),
             RsKind::MftContent => e5_signed_object(s, der::OID_CT_MANIFEST, inner, &env.fx.ee_inherit_der, 2, vec![], real_sig),
             RsKind::AspaContent => e5_signed_object(s, der::OID_CT_ASPA, inner, &env.fx.ee_as_der, 2, vec![], real_sig),
+            RsKind::RtaContent => e5_rta(s, inner, &[&env.fx.ee_cert_der, &env.fx.edge_ee_der], &[], &[2, 6], real_sig, None),
+            RsKind::RtaEeTbs => { let ee = sign_wrap(s, 1, inner, real_sig); e5_rta(s, &env.fx.att_single, &[&ee], &[], &[2], real_sig, None) }
+            RsKind::RtaCaTbs => { let ca = sign_wrap(s, 0, inner, real_sig); e5_rta(s, &env.fx.att_single, &[&env.fx.ee_cert_der, &ca], &[&env.fx.ca_crl_der], &[2], real_sig, None) }
+            RsKind::RtaCrlTbs => { let crl = sign_wrap(s, 1, inner, real_sig); e5_rta(s, &env.fx.att_single, &[&env.fx.ee_cert_der, &env.fx.ca_cert_der], &[&crl], &[2], real_sig, None) }
+            RsKind::RtaAttrs => e5_rta(s, &env.fx.att_single, &[&env.fx.ee_cert_der], &[], &[2], real_sig, Some(inner)),
         }
     }
 }
@@ -763,7 +848,7 @@ struct CaseOut {
     marks: Vec<&'static str>,
 }
 
-struct Sweep<'e> { env: &'e Env, n: usize, fails: Vec<Fail>, marks: Vec<&'static str> }
+struct Sweep<'e> { env: &'e Env, n: usize, bytes: &'e [u8], fails: Vec<Fail>, marks: Vec<&'static str> }
 
 fn count_bounded<I: Iterator>(it: I, n: usize) -> Result<usize, String> {
     let mut c = 0usize;
@@ -882,6 +967,30 @@ impl<'e> Sweep<'e> {
         self.ip_blocks(&v4, true); self.ip_blocks(&v6, false); self.as_blocks(&asn);
     }
 
+    /// Optional / generic siblings of the top-level decoders give the same verdict and value.
+    fn top_siblings(&mut self, cert: bool, reencoded: &[u8]) {
+        let bytes = self.bytes;
+        self.check("C04.variant", "take_opt_from / SignedData::decode", || {
+            use rpki::repository::x509::SignedData;
+            let sd = SignedData::<RpkiSignatureAlgorithm>::decode(bytes).map_err(|e| format!("SignedData::decode rejects a decodable object: {e}"))?;
+            let sd2 = Mode::Der.decode(bytes, |c| SignedData::<RpkiSignatureAlgorithm>::take_from(c)).map_err(|e| format!("SignedData::take_from: {e}"))?;
+            if sd != sd2 { return Err("SignedData::decode and take_from differ".into()) }
+            if cert {
+                match Mode::Der.decode(bytes, |c| Cert::take_opt_from(c)) {
+                    Ok(Some(c2)) => if c2.to_captured().as_slice() == reencoded { Ok(()) } else { Err("Cert::take_opt_from gives a different certificate".into()) },
+                    Ok(None) => Err("Cert::take_opt_from finds nothing in a decodable certificate".into()),
+                    Err(e) => Err(format!("Cert::take_opt_from rejects a decodable certificate: {e}")),
+                }
+            } else {
+                match Mode::Der.decode(bytes, |c| Crl::take_opt_from(c)) {
+                    Ok(Some(c2)) => if *c2.signed_data() == sd && c2.to_captured().as_slice() == reencoded { Ok(()) } else { Err("Crl::take_opt_from gives a different CRL".into()) },
+                    Ok(None) => Err("Crl::take_opt_from finds nothing in a decodable CRL".into()),
+                    Err(e) => Err(format!("Crl::take_opt_from rejects a decodable CRL: {e}")),
+                }
+            }
+        });
+    }
+
     //--- certificates
 
     fn public_key(&mut self, k: &PublicKey) {
@@ -893,6 +1002,41 @@ impl<'e> Sweep<'e> {
             let _ = k.encode_subject_name().to_captured(Mode::Der);
             let _ = k.verify(b"C04", &sig);
             let _ = k == k;
+        });
+        self.check("C04.variant", "PublicKey constructors / KeyIdentifier and DigestAlgorithm siblings", || {
+            use rpki::crypto::keys::{KeyIdentifier, PublicKeyFormat};
+            // by-value encoder == by-reference encoder
+            if k.clone().encode().to_captured(Mode::Der).as_slice() != k.encode_ref().to_captured(Mode::Der).as_slice() { return Err("PublicKey::encode differs from encode_ref".into()) }
+            if k.bits_bytes().as_ref() != k.bits() { return Err("bits_bytes differs from bits".into()) }
+            if k.algorithm() == PublicKeyFormat::Rsa {
+                // the key's own bits must give back the same key, if they are an RSA key at all
+                if let Ok(k2) = PublicKey::rsa_from_bits_bytes(k.bits_bytes()) {
+                    if k2.bits() != k.bits() || k2.algorithm() != k.algorithm() { return Err("rsa_from_bits_bytes(bits_bytes()) gives a different key".into()) }
+                    if let Some(t) = Tree::parse(k.bits()) {
+                        if t.nodes.len() == 3 && t.nodes[1].tag == 2 && t.nodes[2].tag == 2 {
+                            let part = |i: usize| { let n = &t.nodes[i]; &k.bits()[n.start + n.hdr..n.content_end()] };
+                            if let Ok(k3) = PublicKey::rsa_from_components(part(1), part(2)) {
+                                if k3.key_identifier() != k.key_identifier() && k3.bits().len() == k.bits().len() { return Err("rsa_from_components(n, e) gives a different key".into()) }
+                            }
+                        }
+                    }
+                }
+            }
+            // key identifier: optional / skipping siblings of take_from on its own encoding
+            let ki = k.key_identifier();
+            let enc = ki.encode_ref().to_captured(Mode::Der);
+            match Mode::Der.decode(enc.as_slice(), |c| KeyIdentifier::take_opt_from(c)) { Ok(Some(x)) if x == ki => {}, other => return Err(format!("KeyIdentifier::take_opt_from on its own encoding: {:?}", other.map(|o| o.map(|k| k.to_string())).map_err(|e| e.to_string()))) }
+            match Mode::Der.decode(enc.as_slice(), |c| KeyIdentifier::skip_opt_in(c)) { Ok(Some(())) => {}, _ => return Err("KeyIdentifier::skip_opt_in on its own encoding".into()) }
+            match Mode::Der.decode(enc.as_slice(), |c| KeyIdentifier::take_from(c)) { Ok(x) if x == ki => {}, _ => return Err("KeyIdentifier::take_from on its own encoding".into()) }
+            // digest algorithm siblings
+            let alg = DigestAlgorithm::default();
+            let one = alg.encode().to_captured(Mode::Der);
+            match Mode::Der.decode(one.as_slice(), |c| DigestAlgorithm::take_opt_from(c)) { Ok(Some(a)) if a == alg => {}, _ => return Err("DigestAlgorithm::take_opt_from on its own encoding".into()) }
+            let set = alg.encode_set().to_captured(Mode::Der);
+            if Mode::Der.decode(set.as_slice(), |c| DigestAlgorithm::skip_set(c)).is_err() || Mode::Der.decode(set.as_slice(), |c| DigestAlgorithm::take_set_from(c)).is_err() { return Err("DigestAlgorithm::skip_set / take_set_from on its own set encoding".into()) }
+            let mut ctx = rpki::crypto::digest::start_sha1(); ctx.update(k.bits());
+            if ctx.finish().as_ref() != rpki::crypto::digest::sha1_digest(k.bits()).as_ref() || rpki::crypto::digest::sha1_digest(k.bits()).as_ref() != ki.as_slice() { return Err("sha1_digest / start_sha1 / key_identifier disagree".into()) }
+            Ok(())
         });
         if self.run("C04.reencode.key", "PublicKey::to_info_bytes", || k.to_info_bytes().len()).is_some() {
             self.run("C04.serde", "PublicKey serde", || {
@@ -942,12 +1086,20 @@ impl<'e> Sweep<'e> {
         // validation against the fixed issuers
         let mut validated: Vec<ResourceCert> = Vec::new();
         self.run("C04.cert.validate_at", "Cert::validate_*_at", || {
+            // the trust-anchor forms do not depend on an issuer: once per instant
+            let mut seen_t: Vec<i64> = Vec::new();
+            for (_, t) in env.issuers.iter() {
+                if seen_t.contains(&t.timestamp()) { continue }
+                seen_t.push(t.timestamp());
+                for strict in [false, true] {
+                    let _ = c.verify_ta_ref_at(strict, *t);
+                    if let Ok(rc) = c.clone().validate_ta_at(pki::tal(), strict, *t) { validated.push(rc) }
+                }
+            }
             for (issuer, t) in env.issuers.iter() {
                 let _ = c.verify_validity(*t);
                 for strict in [false, true] {
-                    let _ = c.verify_ta_ref_at(strict, *t);
                     let _ = c.verify_issuer_claim(issuer, strict);
-                    if let Ok(rc) = c.clone().validate_ta_at(pki::tal(), strict, *t) { validated.push(rc) }
                     if let Ok(rc) = c.clone().validate_ca_at(issuer, strict, *t) { validated.push(rc) }
                     if let Ok(rc) = c.clone().validate_ee_at(issuer, strict, *t) { validated.push(rc) }
                     if let Ok(rc) = c.clone().validate_detached_ee_at(issuer, strict, *t) { validated.push(rc) }
@@ -955,7 +1107,40 @@ impl<'e> Sweep<'e> {
                 }
             }
         });
-        if let Some(rc) = validated.first() { let rc = rc.clone(); self.mark("Cert::validate_*_at ok"); self.resource_cert(&rc) }
+        if let Some(rc) = validated.first() {
+            let rc = rc.clone(); self.mark("Cert::validate_*_at ok"); self.resource_cert(&rc);
+            self.check("C04.variant", "ResourceCert::into_tal", || {
+                let name = rc.tal().name().to_string();
+                if rc.clone().into_tal().name() != name { return Err("into_tal differs from tal()".into()) }
+                let _ = rc.as_cert().subject_key_identifier();
+                Ok(())
+            });
+        }
+        // wall-clock siblings give the verdict of their *_at(now) forms
+        self.check("C04.variant", "Cert::validate_* / verify_* (wall clock)", || {
+            let now = Time::now();
+            let d = |what: &str, a: bool, b: bool| if a != b { Err(format!("{what}: wall-clock form says {a}, *_at(now) says {b}")) } else { Ok(()) };
+            d("Validity::verify", c.validity().verify().is_ok(), c.validity().verify_at(now).is_ok())?;
+            d("verify_ta_ref", c.verify_ta_ref(true).is_ok(), c.verify_ta_ref_at(true, now).is_ok())?;
+            if c.is_self_signed() {
+                d("validate_ta", c.clone().validate_ta(pki::tal(), true).is_ok(), c.clone().validate_ta_at(pki::tal(), true, now).is_ok())?;
+                d("verify_ta", c.clone().verify_ta(pki::tal(), true).is_ok(), c.clone().verify_ta_at(pki::tal(), true, now).is_ok())?;
+            }
+            for (issuer, _) in env.issuers.iter() {
+                for strict in [true] {
+                    // these need the issuer's signature: only where the issuer is named
+                    if c.verify_issuer_claim(issuer, strict).is_err() { continue }
+                    d("validate_ca", c.clone().validate_ca(issuer, strict).is_ok(), c.clone().validate_ca_at(issuer, strict, now).is_ok())?;
+                    d("verify_ca", c.clone().verify_ca(issuer, strict).is_ok(), c.clone().verify_ca_at(issuer, strict, now).is_ok())?;
+                    d("validate_ee", c.clone().validate_ee(issuer, strict).is_ok(), c.clone().validate_ee_at(issuer, strict, now).is_ok())?;
+                    d("verify_ee", c.clone().verify_ee(issuer, strict).is_ok(), c.clone().verify_ee_at(issuer, strict, now).is_ok())?;
+                    d("validate_detached_ee", c.clone().validate_detached_ee(issuer, strict).is_ok(), c.clone().validate_detached_ee_at(issuer, strict, now).is_ok())?;
+                    d("validate_router", c.validate_router(issuer, strict).is_ok(), c.validate_router_at(issuer, strict, now).is_ok())?;
+                    d("verify_router", c.verify_router(issuer, strict).is_ok(), c.verify_router_at(issuer, strict, now).is_ok())?;
+                }
+            }
+            Ok(())
+        });
     }
 
     fn id_cert(&mut self, c: &IdCert) {
@@ -979,6 +1164,14 @@ impl<'e> Sweep<'e> {
             ok
         });
         if ok == Some(true) { self.mark("IdCert::validate_*_at ok") }
+        self.check("C04.variant", "IdCert::validate_ta / validate_ee (wall clock)", || {
+            let now = Time::now();
+            if c.validate_ta().is_ok() != c.validate_ta_at(now).is_ok() { return Err("validate_ta differs from validate_ta_at(now)".into()) }
+            for (k, _) in env.keys.iter() {
+                if c.validate_ee(k).is_ok() != c.validate_ee_at(k, now).is_ok() { return Err("validate_ee differs from validate_ee_at(now)".into()) }
+            }
+            Ok(())
+        });
     }
 
     //--- CRL
@@ -1001,6 +1194,20 @@ impl<'e> Sweep<'e> {
             let mut store = CrlStore::new(); store.enable_serial_caching();
             store.push(rsync("rsync://example.net/repo/ca/ca.crl"), crl.clone());
             let _ = store.get(&rsync("rsync://example.net/repo/ca/ca.crl")).map(|c| c.contains(serials[0]));
+        });
+        self.check("C04.variant", "RevokedCertificates::empty / CrlEntry::take_from", || {
+            let e = rpki::repository::crl::RevokedCertificates::empty();
+            if e.contains(serials[0]) || e.iter().next().is_some() { return Err("the empty list contains something".into()) }
+            // every listed entry decodes with the mandatory sibling as well and is found by contains
+            for entry in crl.revoked_certs().iter() {
+                let enc = entry.encode().to_captured(Mode::Der);
+                match Mode::Der.decode(enc.as_slice(), |c| CrlEntry::take_from(c)) {
+                    Ok(x) if x.user_certificate == entry.user_certificate => {}
+                    _ => return Err("CrlEntry::take_from on an entry's own encoding".into()),
+                }
+                if !crl.contains(entry.user_certificate) { return Err(format!("entry {} is listed by iter but not found by contains", entry.user_certificate)) }
+            }
+            Ok(())
         });
         self.run("C04.crl.accessors", "TbsCertList accessors", || {
             let _ = (crl.signature(), serde_json::to_string(crl.issuer()), crl.this_update(), crl.next_update(), crl.is_stale(),
@@ -1061,6 +1268,16 @@ impl<'e> Sweep<'e> {
             ok
         });
         if ok == Some(true) { self.mark("Manifest::validate_at ok") }
+        self.check("C04.variant", "Manifest::validate (wall clock)", || {
+            let now = Time::now();
+            for (issuer, _) in env.issuers.iter() {
+                if m.cert().verify_issuer_claim(issuer, false).is_err() { continue }
+                for strict in [false, true] {
+                    if m.clone().validate(issuer, strict).is_ok() != m.clone().validate_at(issuer, strict, now).is_ok() { return Err("validate differs from validate_at(now)".into()) }
+                }
+            }
+            Ok(())
+        });
         let c = m.cert().clone();
         self.cert(&c);
     }
@@ -1165,13 +1382,72 @@ impl<'e> Sweep<'e> {
                 if let Ok(mut v) = rta::Validation::new_at(r, strict, t0()) {
                     ok |= 1;
                     if let Some(tal) = env.tal.as_ref() { let _ = v.supply_tal(tal); }
-                    for (issuer, _) in env.issuers.iter() { let _ = v.supply_ca(issuer); }
+                    for (issuer, _) in env.issuers.iter() { if let Ok(true) = v.supply_ca(issuer) { ok |= 4 } }
                     if v.finalize().map(|c| c.subject_keys().len()).is_ok() { ok |= 2 }
                 }
             }
             ok
         });
-        if let Some(ok) = ok { if ok & 1 != 0 { self.mark("rta::Validation::new_at ok") } if ok & 2 != 0 { self.mark("rta::Validation::finalize ok") } }
+        if let Some(ok) = ok { if ok & 1 != 0 { self.mark("rta::Validation::new_at ok") } if ok & 2 != 0 { self.mark("rta::Validation::finalize ok") } if ok & 4 != 0 { self.mark("rta::Validation::supply_ca accepted") } }
+        // wall-clock sibling: same verdict as new_at(now)
+        self.check("C04.variant", "rta::Validation::new", || {
+            for strict in [true] {
+                let a = rta::Validation::new(r, strict).is_ok();
+                let b = rta::Validation::new_at(r, strict, Time::now()).is_ok();
+                if a != b { return Err(format!("Validation::new says {a}, new_at(now) says {b} (strict={strict})")) }
+            }
+            Ok(())
+        });
+        // builder view of the decoded object: getters return what was decoded; taking the
+        // object apart and putting it together again gives the same encoding
+        self.check("C04.rta.builder", "RtaBuilder::from_rta / AttestationBuilder", || {
+            let orig = r.to_captured();
+            let mut b = rta::RtaBuilder::from_rta(r.clone());
+            if b.content().subject_keys() != r.subject_keys() { return Err("RtaBuilder::content differs from Rta::content".into()) }
+            let (nc, nl, ns) = (b.certificates().len(), b.crls().len(), b.signer_infos().len());
+            for c in b.certificates() { let _ = c.subject_key_identifier(); }
+            for c in b.crls() { let _ = c.crl_number(); }
+            for si in b.signer_infos() { let _ = (si.signing_time(), si.encode_ref().to_captured(Mode::Der).len()); }
+            if let Some(c) = b.certificates_mut().pop() { b.push_cert(c) }
+            if let Some(c) = b.crls_mut().pop() { b.push_crl(c) }
+            if let Some(si) = b.signer_infos_mut().pop() { b.signer_infos_mut().push(si) }
+            if (nc, nl, ns) != (b.certificates().len(), b.crls().len(), b.signer_infos().len()) { return Err("builder element counts changed".into()) }
+            let again = b.finalize().to_captured();
+            if again.as_slice() != orig.as_slice() { return Err("RtaBuilder::from_rta(..).finalize() re-encodes differently".into()) }
+            // attestation builder: what is pushed is what the getters and the result show
+            let c = r.content();
+            let mut ab = rta::AttestationBuilder::new(c.digest_algorithm(), c.message_digest().clone());
+            for k in c.subject_keys() { ab.push_key(*k) }
+            for x in c.as_resources().iter() { ab.push_as(x) }
+            for x in c.v4_resources().iter() { ab.v4_resources_mut().push(x) }
+            for x in c.v6_resources().iter() { ab.push_v6(x) }
+            if ab.keys() != c.subject_keys() { return Err("AttestationBuilder::keys differs from what was pushed".into()) }
+            let k0 = ab.keys_mut().pop(); if let Some(k) = k0 { ab.keys_mut().push(k) }
+            let _ = (ab.as_resources(), ab.v4_resources(), ab.v6_resources());
+            ab.as_resources_mut().extend(std::iter::empty()); ab.v6_resources_mut().extend(std::iter::empty());
+            let att = ab.into_attestation();
+            if att.subject_keys() != c.subject_keys() { return Err("into_attestation lost subject keys".into()) }
+            // the builders canonicalise; a decoded canonical list must survive unchanged
+            let canon = |b: &AsBlocks| b.iter().collect::<AsBlocks>() == *b;
+            if canon(c.as_resources()) && att.as_resources() != c.as_resources() { return Err("AS resources changed by the attestation builder".into()) }
+            Ok(())
+        });
+        // the signed-object layer on its own
+        let bytes = self.bytes;
+        self.check("C04.variant", "MultiSignedObject::decode", || {
+            for strict in [false, true] {
+                match rta::MultiSignedObject::decode(bytes, strict) {
+                    Ok(m) => {
+                        let _ = m.content().len();
+                        let inner = m.decode_content(|cons| cons.take_sequence(|c| c.skip_all()));
+                        if let Err(e) = inner { return Err(format!("content of a decodable RTA cannot be walked with decode_content: {e}")) }
+                        let _ = m.encode_ref().to_captured(Mode::Der).len();
+                    }
+                    Err(e) => return Err(format!("Rta::decode accepts what MultiSignedObject::decode rejects: {e}")),
+                }
+            }
+            Ok(())
+        });
     }
 
     fn tal(&mut self, t: &Tal) {
@@ -1185,6 +1461,38 @@ impl<'e> Sweep<'e> {
         });
         let k = t.key_info().clone();
         self.public_key(&k);
+        // file based siblings (temp dir outside /repo and /verif) and TalUri constructors
+        let bytes = self.bytes;
+        self.check("C04.variant", "Tal::read / Tal::read_dir / TalUri::from_string / digest_file", || {
+            for u in t.uris() {
+                match rpki::repository::tal::TalUri::from_string(u.as_str().to_string()) {
+                    Ok(u2) => if u2 != *u || u2.is_rsync() != u.is_rsync() || u2.is_https() != u.is_https() { return Err(format!("TalUri::from_string({}) differs", u.as_str())) },
+                    Err(e) => return Err(format!("TalUri::from_string rejects its own as_str {}: {e}", u.as_str())),
+                }
+                let _ = rpki::repository::tal::TalUri::from_slice(u.as_str().as_bytes());
+            }
+            let dir = std::env::temp_dir().join(format!("c04-tal-{}", std::process::id()));
+            std::fs::create_dir_all(&dir).map_err(|e| format!("temp dir: {e}"))?;
+            let path = dir.join("case.tal");
+            std::fs::write(&path, bytes).map_err(|e| format!("temp file: {e}"))?;
+            let same = |a: &Tal, what: &str| -> Result<(), String> {
+                if a.key_info() != t.key_info() || a.uris().collect::<Vec<_>>() != t.uris().collect::<Vec<_>>() { return Err(format!("{what} gives a different TAL than read_named")) }
+                if a.info().name() != "case" { return Err(format!("{what} names the TAL {:?}", a.info().name())) }
+                Ok(())
+            };
+            let mut rd = bytes;
+            match Tal::read(&path, &mut rd) { Ok(a) => same(&a, "Tal::read")?, Err(e) => return Err(format!("Tal::read rejects what read_named accepts: {e}")) }
+            let mut n = 0;
+            for item in Tal::read_dir(&dir).map_err(|e| format!("read_dir: {e}"))? {
+                match item { Ok(a) => { n += 1; same(&a, "Tal::read_dir")? }, Err(e) => return Err(format!("Tal::read_dir: {e}")) }
+            }
+            if n != 1 { return Err(format!("Tal::read_dir yields {n} TALs for one file")) }
+            let alg = DigestAlgorithm::default();
+            let d = alg.digest_file(&path).map_err(|e| format!("digest_file: {e}"))?;
+            if d.as_ref() != alg.digest(bytes).as_ref() || d.as_ref().len() != alg.digest_len() || !alg.is_sha256() { return Err("digest_file differs from digest".into()) }
+            let _ = std::fs::remove_file(&path);
+            Ok(())
+        });
     }
 
     fn csr<A, B>(&mut self, c: &Csr<A, B>, extra: impl FnOnce(&Csr<A, B>))
@@ -1197,6 +1505,7 @@ impl<'e> Sweep<'e> {
         self.run("C04.csr.accessors", "Csr accessors", || {
             let _ = serde_json::to_string(c.subject());
             let _ = c.public_key().key_identifier();
+            let _ = c.attributes();
             extra(c);
         });
         if self.run("C04.csr.verify_signature", "Csr::verify_signature", || c.verify_signature().is_ok()) == Some(true) { self.mark("Csr::verify_signature ok") }
@@ -1218,6 +1527,13 @@ impl<'e> Sweep<'e> {
             ok
         });
         if ok == Some(true) { self.mark("SignedMessage::validate_at ok") }
+        self.check("C04.variant", "SignedMessage::validate (wall clock)", || {
+            let now = Time::now();
+            for (k, _) in env.keys.iter() {
+                if m.validate(k).is_ok() != m.validate_at(k, now).is_ok() { return Err("validate differs from validate_at(now)".into()) }
+            }
+            Ok(())
+        });
     }
 }
 
@@ -1228,7 +1544,7 @@ fn run_case(env: &Env, ep: Ep, bytes: &[u8], do_sweep: bool) -> CaseOut {
     let calls = Cell::new(0u64);
     let budget = STEP_C * n as u64 + STEP_K;
     let src = || CountSource { data: bytes, pos: 0, calls: &calls, budget };
-    let mut sw = Sweep { env, n, fails: Vec::new(), marks: Vec::new() };
+    let mut sw = Sweep { env, n, bytes, fails: Vec::new(), marks: Vec::new() };
     let mut reject = String::new();
     let mut steps_exceeded = false;
     macro_rules! dec {
@@ -1241,8 +1557,8 @@ fn run_case(env: &Env, ep: Ep, bytes: &[u8], do_sweep: bool) -> CaseOut {
         };
     }
     let decoded = match ep {
-        Ep::Cert => dec!(Cert::decode(src()), v => sw.cert(&v)),
-        Ep::Crl => dec!(Crl::decode(src()), v => sw.crl(&v)),
+        Ep::Cert => dec!(Cert::decode(src()), v => { sw.cert(&v); let cap = v.to_captured(); sw.top_siblings(true, cap.as_slice()) }),
+        Ep::Crl => dec!(Crl::decode(src()), v => { sw.crl(&v); let cap = v.to_captured(); sw.top_siblings(false, cap.as_slice()) }),
         Ep::MftS => dec!(Manifest::decode(src(), true), v => sw.manifest(&v)),
         Ep::MftR => dec!(Manifest::decode(src(), false), v => sw.manifest(&v)),
         Ep::RoaS => dec!(Roa::decode(src(), true), v => sw.roa(&v)),
@@ -1894,7 +2210,19 @@ impl PoolState {
                             }
                         }
                     }
-                    if let Some(mut w) = slot.take() { drop(w.stdin); let _ = w.child.kill(); let _ = w.child.wait(); }
+                    // let the worker leave by itself (end of input) so that it can flush
+                    // whatever an instrumented build wants to write; kill only if it lingers
+                    if let Some(mut w) = slot.take() {
+                        drop(w.stdin);
+                        let until = Instant::now() + Duration::from_secs(5);
+                        loop {
+                            match w.child.try_wait() {
+                                Ok(Some(_)) => break,
+                                Ok(None) if Instant::now() < until => std::thread::sleep(Duration::from_millis(5)),
+                                _ => { let _ = w.child.kill(); let _ = w.child.wait(); break }
+                            }
+                        }
+                    }
                 });
             }
         });
